@@ -4,3 +4,13 @@ from vlib.props import glr_props
 def check(run, only=None):
     if only in (None, "B"):
         run.add_bounded(glr_props.run_bounded("C17", run.tier))
+    if only in (None, "P"):
+        from vlib.props import pcommon
+        from vlib.companions import parserfuncs as pf
+        import contracts.scanner as cs
+        pcommon.add_proof(run, "C17", cs.SCANNER_C17 + cs.SCANNER_C07, [pf.run_next_tokens, pf.run_scanner],
+                          "_next_tokens (no custom token recognition, lexical disambiguation off): the end-of-input marker "
+                          "STOP is offered iff STOP is expected in the state and (consume_input is off or the position is "
+                          "the end of the input) -- the switch consume_input=False turns; at or past the end nothing but "
+                          "STOP is offered; the head is not moved; verified against the contracts of _token_recognition and "
+                          "_lexical_disambiguation")
